@@ -25,6 +25,7 @@ package main
 import (
 	"fmt"
 	"math"
+	"time"
 
 	"github.com/deadsy/sdfx/sdf"
 	v2 "github.com/deadsy/sdfx/vec/v2"
@@ -109,6 +110,7 @@ var flatLeaf3Names = []string{"Cylinder3D(0,r,0)", "Extrude3D(s,0)", "Extrude3D(
 var levelNames = []string{"union", "array", "elongate", "rotate-union", "rotate-copy", "transform", "offset"}
 
 func flatLookStratum(c *Ctx, r *Report, rng *Rng, one3 func(*shapes.N3, string), one2 func(*shapes.N2, string)) {
+	started := time.Now()
 	g := &shapes.Gen{R: rng, OffsetOnlyLb: true, NoBlend: true}
 	var flat, look probeStats
 	fams := map[string]int{}
@@ -223,7 +225,8 @@ func flatLookStratum(c *Ctx, r *Report, rng *Rng, one3 func(*shapes.N3, string),
 	}
 	r.Coverage["flat_look"] = map[string]interface{}{
 		"flat_trees": flat.trees, "flat_probe_points": flat.points, "flat_probe_points_with_negative_value": flat.negative, "flat_trees_with_a_negative_probe": flat.withNegative,
-		"look_trees": look.trees, "look_probe_points": look.points, "look_probe_points_with_negative_value": look.negative, "look_families": fams,
+		"harness_seconds": math.Round(time.Since(started).Seconds()*100) / 100,
+		"look_trees":      look.trees, "look_probe_points": look.points, "look_probe_points_with_negative_value": look.negative, "look_families": fams,
 	}
 	r.Coverage["flat_look_rule"] = "look: Transform2D/3D and RotateUnion2D/3D (1..3 copies) with a look-alike matrix of each of " + fmt.Sprint(shapes.LookFamilies) + " families (harness/shapes/look.go: determinant exactly / nearly +-1 without being orthogonal - dyadic axis scalings with product +-1, shears, unimodular integer matrices, dense det-1 matrices; orthogonal columns of different length; rotation plus tiny shear; nearly identity / diagonal; symmetric; plain non-uniform scalings), composed with quarter turns / rotations on either side and translations, over primitives and random subtrees (depth <= 2), alone and under 1..2 further box-building combinators. flat: each of 6 two-dimensional and 4 three-dimensional operands with a flat or point bounding box under each of union (any position, thick and flat siblings near and far) / array / elongate / rotate-union / rotate-copy / rigid placement / offset, 1..3 levels deep, 7 of 8 trees topped by Offset2D/3D, Shell3D or ExtrudeRounded3D (only where the operand really is in the LbInf class: translations and quarter turns keep it, rotations keep the Euclidean class, RotateCopy of a Euclidean-class operand is in LbInf). per tree: correspondence with the Coq model (box + 12 values), box finite and ordered, box-relative search, and the parameter-derived probe (extreme points of the leaves mapped forward by the generator's own arithmetic: where Evaluate < 0 there the box must contain the point, 1e-9 relative slack)."
 }
